@@ -12,9 +12,9 @@ def extra(report, env):
     from props.common import bounded
     rng = random.Random(env['seed'])
     p = e2e.new_parser()
-    alphabet = ['a', 'B', 'z', ' ', ' ', '1', 'é', 'ß', '中', '\t', '\n', '\x01', '\x1f', '\x7f', '\x85', '\xa0', '\xad', '　', '​', '"', "'", '-', '.']
+    alphabet = ['a', 'B', 'z', ' ', ' ', '1', 'é', 'ß', '中', '\t', '\n', '\x01', '\x1f', '\x7f', '\x85', '\xa0', '\xad', '　', '​', '"', "'", '-', '.', '\U0001F600', '\U0001D518']
     fixed = ['', ' ', 'a', 'abc', 'Hello World', '  lead', 'trail  ', 'a  b   c', 'ǆ', 'o\'neil mc-x', 'x\x01y\x1fz', 'a\xa0b', 'soft\xadhyphen', 'wide　space',
-             'zero​width', 'del\x7fete', 'aXbXcXd', 'aaaa', 'tab\tsep', 'line\nbreak']
+             'zero​width', 'del\x7fete', 'aXbXcXd', 'aaaa', 'tab\tsep', 'line\nbreak', 'a\U0001F600b', '\U0001F600\U0001F600', 'x\U0001D518']
     texts = fixed + [''.join(rng.choice(alphabet) for _ in range(rng.randint(0, 9))) for _ in range(150 if env['tier'] == 'quick' else 3000)]
     cases = 0
     fails = []
@@ -98,7 +98,7 @@ def extra(report, env):
         r = p.parse(formula)
         if r['result'] != want:
             bad(formula, {'arr': "['a', None, ['b', '', ['c']], None]"}, 'items in order, blanks skipped: expected %r got %r' % (want, r))
-    bounded(report, 'C15.algebra', '20 fixed + seeded texts over a 23-character alphabet (letters, blanks, control characters, no-break / ideographic / zero-width '
+    bounded(report, 'C15.algebra', '20 fixed + seeded texts over a 25-character alphabet (letters, two characters outside the basic multilingual plane, blanks, control characters, no-break / ideographic / zero-width '
             'spaces, soft hyphen, DEL) x 14 laws of the statement, idempotence and case-only of 5 functions, TRIM, k-th SUBSTITUTE (k <= 3), negative counts, CODE(CHAR(n)) for 1..256 and 3 '
             'code points beyond, TEXTJOIN over blanks and nested arrays', cases, fails)
 
